@@ -30,6 +30,8 @@ THEOREMS = {
     # the exact scale-down route of a result that loses fraction bits (float route only for integers a double holds)
     'add_exact_path': ('addExactPath', ['C03']), 'sub_exact_path': ('subExactPath', ['C03']),
     'mul_exact_path': ('mulExactPath', ['C03']),
+    # carrier selection of the reductions (D70): the 64-bit integer route only where the rescaled result fits
+    'dot_int64_path': ('dotNeedsPyInt', ['C15']), 'matmul_int64_path': ('matmulNeedsPyInt', ['C15']), 'prod_int64_path': ('prodNeedsPyInt', ['C15']),
     # rules of objects.py
     'store_limits': ('storeLimits', ['C01', 'C02', 'C03', 'C05', 'C18']), 'resize_limits': ('resizeLimits', ['C02', 'C17']),
     'nint_of': ('nintOf', ['C02', 'C06']), 'extended_prec': ('extendedPrec', ['C18']),
@@ -148,6 +150,18 @@ def _grid_cmd(thm):
         return head + body(['for x in fmts', 'for y in fmts', 'for F in [(-1 : Int), 0, 1, 7, 31, 40, 62, 63, 64, 65]'],
                            'Gen.%s %s F' % (gen, a2), 'decide (%s ∧ 2 ^ 53 < %s)' % (drop, big), 's!" n_frac={F}"', cond='m && !g',
                            gs='"float route"', ms='"bits dropped and an exact result beyond 2^53"') + tail
+    if thm in ('dot_int64_path', 'matmul_int64_path'):
+        # operand formats, a result fraction length and a number of terms for which the 64-bit route is taken although the extreme
+        # codes give a rescaled sum beyond the carrier (2^63; 2^53 for a signed with an unsigned operand)
+        big = '(k * max (x.lo * y.lo).natAbs (x.hi * y.hi).natAbs) * 2 ^ (F - x.nfrac - y.nfrac).toNat'
+        return head + body(['for x in fmts', 'for y in fmts', 'for F in [(0 : Int), 1, 7, 31, 40, 62, 63, 64, 65, 100]', 'for k in [1, 2, 3, 4, 8, 9]'],
+                           'Gen.%s %s F (k : Nat)' % (gen, a2), 'decide (2 ^ 63 ≤ %s ∨ (x.signed ≠ y.signed ∧ 2 ^ 53 < %s))' % (big, big),
+                           's!" n_frac={F} k={k}"', cond='m && !g', gs='"64-bit route"', ms='"a rescaled sum beyond the carrier"') + tail
+    if thm == 'prod_int64_path':
+        big = '(max x.lo.natAbs x.hi.natAbs) ^ k * 2 ^ (F - k * x.nfrac).toNat'
+        return head + body(['for x in fmts', 'for F in [(0 : Int), 1, 7, 31, 40, 62, 63, 64, 65, 100]', 'for k in [1, 2, 3, 4, 8, 9]'],
+                           'Gen.%s %s F (k : Nat)' % (gen, a1), 'decide (2 ^ 63 ≤ %s)' % big,
+                           's!" n_frac={F} k={k}"', cond='m && !g', gs='"64-bit route"', ms='"a rescaled product beyond the carrier"', ys='x') + tail
     return ''
 
 
